@@ -345,7 +345,7 @@ def c06(tier):
                            "without final newline, assembler includes, CR-LF) followed by one error of each kind in the main file or in a header, and computes the "
                            "origin; the real compiler's Error{filename,line,included_in} must name it.")
     common.write_evidence(pid, tier, "model_checking", cov, time.time() - t0, len(verdict.violations), ["columns are not checked", "renderer asserted to produce the stated line counts"])
-    return verdict.finish(max_print=40)
+    return verdict.finish(max_print=12)
 
 
 REGISTRY["C06"] = c06
@@ -480,7 +480,7 @@ def c09(tier):
                explanation="GenLit.tla enumerates literal bodies over Lexer.tla's symbol alphabet (letters, digits, every escape, escaped quote and backslash, "
                            "comment markers, #, @, a macro name, ...) in nine contexts; the bytes stored by the real compiler must equal Lexer!LiteralBytes.")
     common.write_evidence(pid, tier, "model_checking", cov, time.time() - t0, len(verdict.violations), ["literals the compiler refuses are not judged (C16 judges refusals)"])
-    return verdict.finish(max_print=40)
+    return verdict.finish(max_print=12)
 
 
 REGISTRY["C09"] = c09
@@ -610,7 +610,7 @@ def c08(tier):
                            "sites (adjacent operators, inside longer identifiers, inside strings, nested calls, parentheses depth 1-5); the preprocessed token sequence must "
                            "equal MacroRef!Expand, for a tight and a spaced rendering.")
     common.write_evidence(pid, tier, "model_checking", cov, time.time() - t0, len(verdict.violations), ["no # / ## operators, variadics or recursive macros (outside the property)"])
-    return verdict.finish(max_print=40)
+    return verdict.finish(max_print=12)
 
 
 REGISTRY["C08"] = c08
